@@ -26,8 +26,8 @@ inline std::pair<const int, int> make_val(const std::pair<const int, int>*, int 
 inline K make_key(const K*, int k) { return K{k, -1}; }
 inline int make_key(const int*, int k) { return k; }
 
-enum OK { INSERT, EMPLACE, FIND, COUNT, CONTAINS, TRAVERSE, NOPS };
-const char* const kOp[] = {"insert", "emplace", "find", "count", "contains", "traverse"};
+enum OK { INSERT, EMPLACE, FIND, COUNT, CONTAINS, TRAVERSE, INSERT_NODE, EQUAL_RANGE, MERGE, NOPS };
+const char* const kOp[] = {"insert", "emplace", "find", "count", "contains", "traverse", "insert(node)", "equal_range", "merge"};
 struct Plan { OK k; int key; };
 struct InsRec { int key, id; bool ok; int ret_id; uint64_t inv, res; };
 
@@ -48,11 +48,11 @@ void run_container(C& c, hx::Desc& d, const char* cname) {
         int nops = (int)sim::draw_range(1, 8, "nops");
         std::string s = hx::fmt("T%d:", t);
         for (int i = 0; i < nops && total < 24; ++i, ++total) {
-            static const OK mix[] = {INSERT, INSERT, INSERT, EMPLACE, FIND, COUNT, CONTAINS, TRAVERSE};
-            OK k = mix[sim::draw(8, "op")];
+            static const OK mix[] = {INSERT, INSERT, INSERT, EMPLACE, FIND, COUNT, CONTAINS, TRAVERSE, INSERT_NODE, INSERT_NODE, EQUAL_RANGE, EQUAL_RANGE, MERGE};
+            OK k = mix[sim::draw(13, "op")];
             int key = (int)sim::draw((uint64_t)nkeys, "key") * 3;    // multiples of 3: bounds queries have gaps to probe
             plan[t].push_back({k, key});
-            s += k == TRAVERSE ? " traverse" : hx::fmt(" %s(%d)", kOp[k], key);
+            s += k == TRAVERSE ? " traverse" : k == MERGE ? " merge(private)" : hx::fmt(" %s(%d)", kOp[k], key);
         }
         d.add(s);
     }
@@ -95,16 +95,91 @@ void run_container(C& c, hx::Desc& d, const char* cname) {
         for (auto& r : ins) if (r.ok && r.res <= t_begin)
             SIM_CHECK(ids.count(r.id), "oracle:traversal-missed", "%s: element id %d (key %d), inserted before the traversal began, was not visited", who, r.id, r.key);
     };
+    // node handles: every thread owns a private container of the same type (never shared); elements move from it into
+    // the shared container through unsafe_extract + insert(node_type&&) or merge().  It holds, for every planned
+    // insert(node) key, three equivalent elements (multi) / one (unique) plus a bigger key, so that an extracted node had
+    // successors - also equivalent ones - where it came from.
+    std::vector<std::unique_ptr<C>> priv((size_t)nthreads);
+    struct Started { int key; uint64_t inv; int id; };
+    std::vector<Started> started;          // inserts by invocation (upper bounds for count / equal_range)
+    for (int t = 0; t < nthreads; ++t) {
+        priv[(size_t)t].reset(new C);
+        int pid = (t + 1) * 100000;
+        for (const Plan& p : plan[t]) if (p.k == INSERT_NODE || p.k == MERGE) {
+            int key = p.k == MERGE ? p.key + 1 : p.key;      // merge brings keys of its own (k+1: between the multiples of 3) and shared ones
+            for (int e = 0; e < (Unique ? 1 : 3); ++e) priv[(size_t)t]->insert(make_val((const V*)nullptr, key, ++pid));
+            if (p.k == MERGE) priv[(size_t)t]->insert(make_val((const V*)nullptr, p.key, ++pid));
+            priv[(size_t)t]->insert(make_val((const V*)nullptr, key + 40, ++pid));
+        }
+    }
+    auto bounds = [&](int key, uint64_t inv, int& lo, int& hi) {
+        lo = 0; hi = 0;
+        for (auto& r : ins) if (r.key == key && r.ok && r.res <= inv) ++lo;
+        for (auto& st : started) if (st.key == key) ++hi;       // everything invoked so far (prefill keys are disjoint)
+    };
     std::vector<std::function<void()>> fns;
     for (int t = 0; t < nthreads; ++t) {
         fns.push_back([&, t] {
             int seq = 0;
+            C& src = *priv[(size_t)t];
             for (const Plan& p : plan[t]) {
                 int id = (t + 1) * 1000 + (++seq);
                 sim::upoint();
                 uint64_t inv = sim::step();
                 switch (p.k) {
+                case INSERT_NODE: {
+                    auto it = src.find(make_key((const KeyT*)nullptr, p.key));
+                    if (it == src.end()) break;
+                    int nid = id_of(*it);
+                    auto nh = src.unsafe_extract(it);
+                    SIM_CHECK(!nh.empty(), "oracle:wrong-element", "unsafe_extract returned an empty node handle");
+                    started.push_back({p.key, inv, nid});
+                    auto r = c.insert(std::move(nh));
+                    uint64_t res = sim::step();
+                    SIM_CHECK(key_of(*r.first) == p.key, "oracle:wrong-element", "insert(node %d) returned an iterator to key %d", p.key, key_of(*r.first));
+                    if (r.second) SIM_CHECK(id_of(*r.first) == nid && nh.empty(), "oracle:wrong-element", "successful insert(node) returned an iterator to another element, or kept the node");
+                    else SIM_CHECK(!nh.empty(), "oracle:wrong-element", "failed insert(node) did not leave the node with the caller");
+                    if (!Unique) SIM_CHECK(r.second, "oracle:insert-result", "insert(node) into a multi container reported failure");
+                    ins.push_back({p.key, nid, r.second, id_of(*r.first), inv, res});
+                    break;
+                }
+                case MERGE: {
+                    std::vector<std::pair<int, int>> before;
+                    for (auto it = src.begin(); it != src.end(); ++it) { before.push_back({key_of(*it), id_of(*it)}); started.push_back({key_of(*it), inv, id_of(*it)}); }
+                    c.merge(src);
+                    uint64_t res = sim::step();
+                    std::set<int> left; for (auto it = src.begin(); it != src.end(); ++it) left.insert(id_of(*it));
+                    if (!Unique) SIM_CHECK(left.empty(), "oracle:insert-result", "merge into a multi container left %zu elements behind", left.size());
+                    for (auto& b : before) {
+                        bool moved = !left.count(b.second);
+                        int holder = b.second;
+                        if (!moved) { auto f = c.find(make_key((const KeyT*)nullptr, b.first)); SIM_CHECK(f != c.end(), "oracle:insert-result", "merge left key %d behind although the target does not hold it", b.first); holder = id_of(*f); }
+                        ins.push_back({b.first, b.second, moved, holder, inv, res});
+                    }
+                    break;
+                }
+                case EQUAL_RANGE: {
+                    KeyT key = make_key((const KeyT*)nullptr, p.key);
+                    auto er = c.equal_range(key);
+                    // What is NOT demanded: an exact count, or only equivalent keys - the range is computed once and walked
+                    // later, and concurrent inserts may land inside it (count() of the multi containers is a distance over such a
+                    // live range).  Demanded: the walk ends, stays inside this container, and every element it meets is one that
+                    // somebody has at least begun to insert here; everything inserted before the call is in the range.
+                    int n = 0, nk = 0;
+                    for (auto it = er.first; it != er.second; ++it) {
+                        SIM_CHECK(it != c.end(), "oracle:foreign-element", "equal_range(%d): the range runs past end() of the container", p.key);
+                        int eid = id_of(*it); bool offered = eid >= 900000 && eid < 900000 + 64;     // prefill
+                        for (auto& st : started) if (st.id == eid) offered = true;
+                        SIM_CHECK(offered, "oracle:foreign-element", "equal_range(%d) leads to element id %d (key %d) that nobody has inserted into this container (it lives in a thread's private container)", p.key, eid, key_of(*it));
+                        if (key_of(*it) == p.key) ++nk;
+                        SIM_CHECK(++n < 200, "oracle:foreign-element", "equal_range(%d) does not end", p.key);
+                    }
+                    int lo, hi; bounds(p.key, inv, lo, hi); if (Unique) lo = lo ? 1 : 0;
+                    SIM_CHECK(nk >= lo, "oracle:find-after-insert", "equal_range(%d) holds %d elements of that key; %d had been inserted before it started", p.key, nk, lo);
+                    break;
+                }
                 case INSERT: case EMPLACE: {
+                    started.push_back({p.key, inv, id});
                     std::pair<typename C::iterator, bool> r = p.k == INSERT ? c.insert(make_val((const V*)nullptr, p.key, id)) : c.emplace(make_val((const V*)nullptr, p.key, id));
                     uint64_t res = sim::step();
                     SIM_CHECK(key_of(*r.first) == p.key, "oracle:wrong-element", "insert(%d) returned an iterator to key %d", p.key, key_of(*r.first));
@@ -115,7 +190,10 @@ void run_container(C& c, hx::Desc& d, const char* cname) {
                 }
                 case FIND: case COUNT: case CONTAINS: {
                     KeyT key = make_key((const KeyT*)nullptr, p.key);
-                    bool found = p.k == FIND ? c.find(key) != c.end() : p.k == COUNT ? c.count(key) != 0 : c.contains(key);
+                    size_t cnt = p.k == COUNT ? c.count(key) : 0;
+                    bool found = p.k == FIND ? c.find(key) != c.end() : p.k == COUNT ? cnt != 0 : c.contains(key);
+                    if (p.k == COUNT) { int lo, hi; bounds(p.key, inv, lo, hi); if (Unique) lo = lo ? 1 : 0;     // no upper bound: see equal_range
+                        SIM_CHECK((int)cnt >= lo, "oracle:find-after-insert", "count(%d) == %zu; %d elements of that key had been inserted before it started", p.key, cnt, lo); }
                     bool must = false;
                     for (auto& r : ins) if (r.key == p.key && r.ok && r.res <= inv) must = true;   // an insert of this key returned before we started
                     if (must) SIM_CHECK(found, "oracle:find-after-insert", "%s(%d) failed although an insert of that key had returned before it started", kOp[p.k], p.key);
